@@ -38,17 +38,18 @@ func vWrap(d decor.Decorator, depth int) decor.Decorator {
 // moving-average decorator, however deeply it is wrapped.
 func vhC20SampleDelivery() {
 	e := &vEwma{}
+	e2 := &vEwma{}
 	depth := vInt("depth")
 	vAssume(depth >= 0 && depth <= 3)
 	ps := pState{}
 	var opt BarOption
 	if vBool("prepend") {
-		opt = PrependDecorators(vWrap(e, depth))
+		opt = PrependDecorators(vWrap(e, depth), e2)
 	} else {
-		opt = AppendDecorators(vWrap(e, depth))
+		opt = AppendDecorators(e2, vWrap(e, depth))
 	}
 	bs := ps.makeBarState(vInt64("total"), nil, opt)
-	vAssert(len(bs.ewmaDecorators) == 1, "C20.delivery.collected-through-wrappers")
+	vAssert(len(bs.ewmaDecorators) == 2, "C20.delivery.collected-through-wrappers")
 	bs.current = vInt64("s.current")
 	pre := bs.current
 	b := vBarFor(bs)
@@ -57,13 +58,15 @@ func vhC20SampleDelivery() {
 		v := vInt64("v")
 		vAssume(v >= 0)
 		vRunOp(b, bs, func() { b.EwmaSetCurrent(v, d) })
-		vAssert(e.calls == 1, "C20.delivery.setcurrent-one-sample")
+		vAssert(e.calls == 1 && e2.calls == 1, "C20.delivery.setcurrent-one-sample")
+		vAssert(e2.lastN == v-pre && e2.lastD == d, "C20.delivery.setcurrent-sample-values-second-decorator")
 		vAssert(e.lastN == v-pre && e.lastD == d, "C20.delivery.setcurrent-sample-values")
 	} else {
 		n := vInt64("n")
 		vNoWrapAdd(pre, n)
 		vRunOp(b, bs, func() { b.EwmaIncrInt64(n, d) })
-		vAssert(e.calls == 1, "C20.delivery.incr-one-sample")
+		vAssert(e.calls == 1 && e2.calls == 1, "C20.delivery.incr-one-sample")
+		vAssert(e2.lastN == n && e2.lastD == d, "C20.delivery.incr-sample-values-second-decorator")
 		vAssert(e.lastN == n && e.lastD == d, "C20.delivery.incr-sample-values")
 	}
 	vCover("C20.delivery.reach")
